@@ -1,19 +1,25 @@
 //! Bounded stand-in / failing-input search for unit U2 (slot table) — NOT a proof.
 //! functions: Slot::fresh Slot::named Slot::numeric
-//! Bound: every sequence of at most 2 operations (3 over a 10-operation subset, 4 over a 6-operation subset) over {fresh, numeric(k) for k in {0,7}, named(n) for 15 names
+//! Bound: every sequence of at most 2 operations (3 over a 10-operation subset, 4 over a 6-operation subset) over {fresh, numeric(k) for k in {0,7}, named(n) for 26 names
 //! (small/large numerals, f<number> forms around the counter and around the 2^30 boundary, ordinary names,
-//! leading zeros)}, each sequence in a fresh thread (the table is thread-local).  The fresh counter is assumed to have
+//! leading zeros, doubled 'f', upper case, sign and blank after the 'f')}, each sequence in a fresh thread (the table is thread-local).  The fresh counter is assumed to have
 //! room (fewer than 2^29 calls of Slot::fresh per thread).
 use crate::*;
 
 #[derive(Clone, Debug, PartialEq, Eq)]
 enum Key { Num(u64), F(u64), Name(String) }
-// reference reading of a name, given the model of the fresh counter
+// reference reading of a name, given the model of the fresh counter.  Independent of str::parse: a numeral counts as a
+// number only in the form Display prints (ASCII digits, no sign, no leading zeros); every other text is a name of its own.
+fn canon_num(s: &str) -> Option<u64> {
+    if s.is_empty() || !s.chars().all(|c| c.is_ascii_digit()) || (s.len() > 1 && s.starts_with('0')) || s.len() > 10 { return None; }
+    let v: u64 = s.chars().fold(0u64, |a, c| a * 10 + (c as u64 - '0' as u64));
+    if v <= u32::MAX as u64 { Some(v) } else { None }
+}
 fn key_of(name: &str, counter: u64) -> Key {
-    if let Ok(x) = name.parse::<u32>() { if x <= u32::MAX / 4 { return Key::Num(x as u64); } }
-    if name.starts_with("f") { if let Ok(x) = name[1..].parse::<u32>() {
-        let out = 4 * (x as u64) + 1;
-        if out + 4 <= u32::MAX as u64 && (out < counter || x < u32::MAX / 8) { return Key::F(x as u64); }
+    if let Some(x) = canon_num(name) { if x <= (u32::MAX / 4) as u64 { return Key::Num(x); } }
+    if let Some(rest) = name.strip_prefix('f') { if let Some(x) = canon_num(rest) {
+        let out = 4 * x + 1;
+        if out + 4 <= u32::MAX as u64 && (out < counter || x < (u32::MAX / 8) as u64) { return Key::F(x); }
     } }
     Key::Name(name.to_string())
 }
@@ -22,7 +28,7 @@ enum Op { Fresh, Numeric(u32), Named(&'static str) }
 
 fn ops() -> Vec<Op> {
     let mut v = vec![Op::Fresh, Op::Numeric(0), Op::Numeric(7)];
-    for n in ["0", "7", "07", "1073741823", "1073741824", "1073741831", "4294967295", "f0", "f1", "f2", "f536870910", "f536870911", "f536870912", "f1073741822", "x", "fx", "f"] { v.push(Op::Named(n)); }
+    for n in ["0", "7", "07", "1073741823", "1073741824", "1073741831", "4294967295", "f0", "f1", "f2", "f536870910", "f536870911", "f536870912", "f1073741822", "x", "fx", "f", "ff0", "ff1", "fff2", "F1", "f+1", "f 1", "f01", "+7", "007", "f00", "-0"] { v.push(Op::Named(n)); }
     v
 }
 
@@ -59,7 +65,7 @@ pub fn run(only: &[String]) -> Vec<String> {
     let all = ops();
     let small: Vec<Op> = vec![Op::Fresh, Op::Named("f0"), Op::Named("f1"), Op::Named("f536870910"), Op::Named("f536870911"), Op::Named("x")];
     let mut medium = small.clone();
-    medium.extend([Op::Numeric(7), Op::Named("7"), Op::Named("1073741824"), Op::Named("f1073741822")]);
+    medium.extend([Op::Numeric(7), Op::Named("7"), Op::Named("1073741824"), Op::Named("f1073741822"), Op::Named("ff1"), Op::Named("f01"), Op::Named("07"), Op::Named("+7")]);
     for len in 1..=4usize {
         let pool = if len == 4 { &small } else if len == 3 { &medium } else { &all };
         let n = pool.len();
